@@ -44,6 +44,16 @@ func vAscii2(name string) string {
 	return s
 }
 
+// vAscii01: the empty string or one ASCII character (a search of the root DSE has an empty base DN)
+func vAscii01(name string) string {
+	s := vStr(name)
+	vAssume(len(s) <= 1)
+	if len(s) == 1 {
+		vAssume(s[0] < 0x80)
+	}
+	return s
+}
+
 // reference case-insensitive comparison: ASCII folding (vFoldEq is
 // implemented independently of strings.EqualFold on the native side)
 func refFold(a, b string) bool { return vFoldEq(a, b) }
@@ -131,7 +141,7 @@ func vDispatch(maxRoutes int) {
 	case rkBind:
 		op = refApp(ApplicationBindRequest, refInt(3), refOctet("cn=u"), refCtxPrim(0, "pw"))
 	case rkSearch:
-		base = vAscii2("req.base")
+		base = vAscii01("req.base")
 		scope = vI64("req.scope")
 		vAssume(scope >= 0 && scope <= 2)
 		op = refApp(ApplicationSearchRequest, refOctet(base), refEnum(scope), refEnum(0), refInt(0), refInt(0), refBool(false), refCtxPrim(7, "objectClass"), refSeq())
